@@ -28,8 +28,9 @@ fn frame(l: &Layouts, rng: &mut Rng, s: &Sym, k: usize) -> Vec<u8> {
     let mut f = crate::frames::msg_header_bytes(31, k as u16, 0xFFFF);
     let mut blocks: Vec<Block> = Vec::new();
     if s.vol != 0 { let mut b = random_block(l, rng, "VOL", 0, 8, 0); b.rec.insert("volume_coverage_pattern_number".into(), s.vol.to_be_bytes().to_vec()); blocks.push(b); }
+    let all_blocks = s.vol != 0 && s.id % 3 == 0;      // a full ten-block radial every so often
     for p in ["ELV", "RAD", "REF", "VEL", "SW", "ZDR", "PHI", "RHO", "CFP"] {
-        if rng.chance(1, 2) { let g = *rng.pick(&[0usize, 1, 7, 40]); let w = if p == "PHI" || rng.chance(1, 5) { 16 } else { 8 }; blocks.push(random_block(l, rng, p, g, w, 0)); }
+        if all_blocks || rng.chance(1, 2) { let g = *rng.pick(&[0usize, 1, 7, 40]); let w = if p == "PHI" || rng.chance(1, 5) { 16 } else { 8 }; blocks.push(random_block(l, rng, p, g, w, 0)); }
     }
     let mut hdr = l.get("drd_header").random(rng);
     hdr.insert("elevation_number".into(), vec![s.el]);
@@ -119,13 +120,13 @@ pub fn run(args: &Args) {
             let vols = if args.thorough { 40 } else { 10 };
             for k in 0..vols {
                 // elevation sequence: single, SAILS-like repeats, up to 255 elevations
-                let els: Vec<u64> = match k % 5 { 0 => vec![1 + rng.below(255)], 1 => vec![1, 2, 1, 3, 4, 1, 5], 2 => (1..=(if args.thorough { 255 } else { 40 })).collect(), _ => crate::sweep::gen_elevations(&mut rng, 12).into_iter().collect() };
-                let per = if args.thorough && k % 8 == 1 { 720 } else { 1 + rng.below(if args.thorough { 120 } else { 30 }) };
+                let els: Vec<u64> = match k % 5 { 0 => vec![1 + rng.below(255)], 1 => vec![1, 2, 1, 3, 4, 1, 5], 2 => (1..=(if args.thorough && k % 10 == 2 { 255 } else { 40 })).collect(), _ => crate::sweep::gen_elevations(&mut rng, 12).into_iter().collect() };
+                let per = if args.thorough && k % 8 == 1 { 720 } else { 1 + rng.below(if args.thorough { 40 } else { 30 }) };
                 let mut stream: Vec<Sym> = Vec::new();
                 let mut id = 1u64;
                 let vols_at = rng.below(3);
                 for (ei, el) in els.iter().enumerate() {
-                    let n = if k % 5 == 3 { 1 } else { per };
+                    let n = if k % 5 == 3 { 1 } else if els.len() > 40 { per.min(8) } else if per == 720 && ei > 3 { 5 } else { per };
                     for j in 0..n {
                         if rng.chance(1, 25) { stream.push(Sym { radial: false, el: 0, vol: 0, id: 0 }); }
                         let vol = if (ei as u64 >= vols_at && j == 0) || rng.chance(1, 50) { *rng.pick(&[212u16, 35, 12, 215]) } else { 0 };
